@@ -153,6 +153,10 @@ func (o Op) String() string {
 		return fmt.Sprintf("AddUserProp(%d pairs)", len(o.KV))
 	case "will":
 		return fmt.Sprintf("SetWill(qos %d retain %v)", o.Will.QoS, o.Will.Retain)
+	case "editfilter":
+		return fmt.Sprintf("Filters()[%d].SetFilter(len %d)/SetOptions(%d)", o.N, len(o.B), o.ID)
+	case "rewill":
+		return fmt.Sprintf("change the attached will (qos %d retain %v payload %d bytes) and SetWill(it) again", o.Will.QoS, o.Will.Retain, len(o.Will.Payload))
 	case "filters":
 		return fmt.Sprintf("AddFilters(%d)", len(o.Fs))
 	case "cleanstart", "dup", "retain", "sessionpresent":
@@ -465,6 +469,29 @@ func Apply(p mq.Packet, o Op) error {
 		p.(*mq.Connect).SetProtocolVersion(uint8(o.N))
 	case "will":
 		p.(*mq.Connect).SetWill(BuildWill(o.Will))
+	case "editfilter":
+		// in-place edit of a topic filter through the slice Filters() returns
+		x, ok := p.(*mq.Subscribe)
+		if !ok || len(x.Filters()) == 0 {
+			return nil
+		}
+		i := int(o.N) % len(x.Filters())
+		x.Filters()[i].SetFilter(string(o.B))
+		x.Filters()[i].SetOptions(mq.Opt(o.ID))
+	case "rewill":
+		// the SAME *Publish that is already attached is changed through its own
+		// setters and attached again: the last SetWill must win
+		cn := p.(*mq.Connect)
+		w := cn.Will()
+		if w == nil {
+			cn.SetWill(BuildWill(o.Will))
+			return nil
+		}
+		w.SetQoS(o.Will.QoS)
+		w.SetRetain(o.Will.Retain)
+		w.SetTopicName(string(o.Will.Topic))
+		w.SetPayload(o.Will.Payload)
+		cn.SetWill(w)
 	case "sessionpresent":
 		p.(*mq.ConnAck).SetSessionPresent(o.Flag)
 	case "filters":
@@ -573,6 +600,25 @@ func ApplyModel(a *ref.AP, o Op) {
 		a.ProtoVer = byte(o.N)
 	case "will":
 		w := *o.Will
+		a.Will = &w
+		a.ConnFlags &^= ref.CFWillQoS | ref.CFWillRetain
+		a.ConnFlags |= ref.CFWill
+		a.ConnFlags |= (w.QoS & 3) << 3
+		if w.Retain {
+			a.ConnFlags |= ref.CFWillRetain
+		}
+	case "editfilter":
+		if a.Type == ref.Subscribe && len(a.Filters) > 0 {
+			i := int(o.N) % len(a.Filters)
+			fs := append([]ref.Filter{}, a.Filters...)
+			fs[i] = ref.Filter{Name: o.B, Opts: o.ID}
+			a.Filters = fs
+		}
+	case "rewill":
+		w := *o.Will
+		if a.Will != nil {
+			w.Props = a.Will.Props // only qos, retain, topic and payload are changed on the attached message
+		}
 		a.Will = &w
 		a.ConnFlags &^= ref.CFWillQoS | ref.CFWillRetain
 		a.ConnFlags |= ref.CFWill
